@@ -353,6 +353,15 @@ def check_neighbor(ctx):
     ctx.decide(okq and oksel, "NEIGHBOR", site, (fi, q[0]) if q else fi,
                "two nearest hits per droplet (itself and its nearest neighbour); column 1 is returned, minus both radii on request",
                "nearest-neighbour distances are not taken from the second hit of a 2-nearest query on the droplet positions (minus the radii of both droplets exactly when requested)")
+    # with subtract_radius the documented quantity is the distance between the *surfaces* to the nearest neighbour, i.e. the
+    # row minimum of the surface-distance matrix.  A query on the centres alone chooses the neighbour before the radii are
+    # subtracted: it is the row minimum only when all radii are equal.
+    sub_vals = [v for s_, v in got if s_ is True]
+    by_centre = bool(q) and any(xn and f"[{xn}]" in v and dn and v.startswith(f"{dn}[:, 1]") for v in sub_vals)
+    ctx.decide(not by_centre, "NEIGHBOR", site + ":surface-minimum", (fi, q[0]) if q else fi,
+               "the surface distance to the nearest neighbour is minimised over the surface distances themselves",
+               "with subtract_radius=True the neighbour is chosen by centre distance (k-d tree on the positions) and the two radii are subtracted afterwards: for droplets of different size this is not "
+               "the minimum of the surface distances (1-d droplets (x, r) = (0, 1), (3, 0.1), (−4, 2.9): row minima of the surface-distance matrix [0.1, 1.9, 0.1], returned [1.9, 1.9, 0.1])")
     small = {}
     for n in fv.return_nodes():
         for dec, val in value_cases(fv, n.stmt, n.stmt.value, stop=(dn or "", xn or "")):
